@@ -81,3 +81,22 @@ Section Clt.
 End Clt.
 Arguments CT {T}.
 Arguments Build_clt {T}. Arguments cscope {T}. Arguments cpar {T}. Arguments cparams {T}.
+
+(* the batch function of BinaryCLT.log_likelihood: rows are split into a full-evidence group
+   (vectorised gather) and a group with missing values (message passing), then merged by mask *)
+Section CltBatch.
+  Variable T : Type.
+  Variables (t0 t1 : T) (tadd tmul : T -> T -> T).
+  Fixpoint merge (mask : list bool) (a b : list T) : list T :=
+    match mask with
+    | [] => []
+    | true :: m => match a with x :: a' => x :: merge m a' b | [] => [] end
+    | false :: m => match b with y :: b' => y :: merge m a b' | [] => [] end
+    end.
+  Definition clt_batch (c : clt T) (rows : list row) : list T :=
+    let full := complete_on (cscope c) in
+    let mask := map full rows in
+    if forallb (fun b => b) mask then map (clt_gather T t0 t1 tmul c) rows
+    else merge mask (map (clt_gather T t0 t1 tmul c) (filter full rows))
+                    (map (clt_val T t0 t1 tadd tmul c) (filter (fun r => negb (full r)) rows)).
+End CltBatch.
